@@ -1,6 +1,7 @@
 package main
 
 import (
+	"sort"
 	"fmt"
 	"go/constant"
 	"go/token"
@@ -1600,4 +1601,84 @@ func wrapIncPhi(phi *ssa.Phi) (x, m ssa.Value, ok bool) {
 		}
 	}
 	return nil, nil, false
+}
+
+// pathExistsPS is pathExists with path sensitivity on branch conditions: the truth value
+// taken for a condition is remembered along the path, and an edge that needs the opposite
+// value of the same SSA condition is not taken (conditions are pure SSA values, so two
+// tests of the same value within one path agree unless the value is a phi/load that
+// changes - only conditions that are not phis and whose defining block is left are tracked
+// conservatively: a condition defined in a block that is re-entered on the path is forgotten).
+func pathExistsPS(from, to ssa.Instruction, avoid func(ssa.Instruction) bool) bool {
+	if from.Parent() != to.Parent() {
+		return false
+	}
+	type state struct {
+		b   *ssa.BasicBlock
+		key string
+	}
+	seen := map[state]bool{}
+	keyOf := func(m map[ssa.Value]bool) string {
+		var ks []string
+		for v, t := range m {
+			ks = append(ks, fmt.Sprintf("%s=%v", v.Name(), t))
+		}
+		sort.Strings(ks)
+		return strings.Join(ks, ",")
+	}
+	var walk func(b *ssa.BasicBlock, i int, asg map[ssa.Value]bool, budget *int) bool
+	walk = func(b *ssa.BasicBlock, i int, asg map[ssa.Value]bool, budget *int) bool {
+		*budget--
+		if *budget < 0 {
+			return true // give up: assume a path exists (conservative for "every path passes X" queries)
+		}
+		// entering b: forget conditions defined in b (they are recomputed)
+		for v := range asg {
+			if in, ok := v.(ssa.Instruction); ok && in.Block() == b && i == 0 {
+				n := map[ssa.Value]bool{}
+				for k, t := range asg {
+					if k != v {
+						n[k] = t
+					}
+				}
+				asg = n
+			}
+		}
+		for ; i < len(b.Instrs); i++ {
+			in := b.Instrs[i]
+			if in == to {
+				return true
+			}
+			if avoid != nil && avoid(in) {
+				return false
+			}
+		}
+		for _, s := range b.Succs {
+			if !edgeFeasible(b, s) {
+				continue
+			}
+			next := asg
+			if f, ok := edgeFact(b, s); ok {
+				if t, known := asg[f.Cond]; known && t != f.Val {
+					continue
+				}
+				next = map[ssa.Value]bool{}
+				for k, t := range asg {
+					next[k] = t
+				}
+				next[f.Cond] = f.Val
+			}
+			st := state{s, keyOf(next)}
+			if seen[st] {
+				continue
+			}
+			seen[st] = true
+			if walk(s, 0, next, budget) {
+				return true
+			}
+		}
+		return false
+	}
+	budget := 20000
+	return walk(from.Block(), instrIndex(from)+1, map[ssa.Value]bool{}, &budget)
 }
